@@ -18,6 +18,14 @@ PROPS = {
         text='Verus proves the real bodies of set_pop, quant, restrict, apply_quant, substitute (simple BDD) against iterated-cofactor / override / simultaneous-substitution semantics for all diagrams and variable sets',
         note='manager + apply-cache contracts assumed (prelude); partial correctness; sequential recursor; see evidence.assumptions',
     ),
+    'C11': dict(
+        verus=['tdd'],
+        kani=[],
+        level='proof',
+        design_ref='6/C11',
+        text='Verus proves the real TDD terminal_bin (8 operators), apply_not, apply_bin, apply_ite_rec, reduce rule + then_insert, var/constant constructors and all *_edge wrappers against three-valued truth tables written from the property statement (Kleene not/and/or, Lukasiewicz imp/equiv, xor = not equiv, imp_strict(a,b) = not imp(b,a), the stated ite table), for all diagrams and all three-valued assignments',
+        note='manager + apply-cache contracts assumed (prelude); partial correctness for the recursions; eval (bit-packed choice vector) and cofactors not covered',
+    ),
     'C13': dict(
         verus=['bdd_simple'],
         kani=[],
